@@ -193,6 +193,14 @@ func (e *Engine) scanTypes() {
 		for _, b := range fn.Blocks {
 			for _, ins := range b.Instrs {
 				if a, ok := ins.(*ssa.Alloc); ok {
+					if appendOnlyVarargs(a) {
+						// the temporary array of `append(s, x)`: its cells are copied, the array itself is never reachable
+						// through a slice value that outlives the append
+						if at, ok := a.Type().(*types.Pointer).Elem().(*types.Array); ok {
+							visit(at.Elem())
+							continue
+						}
+					}
 					visit(a.Type())
 				}
 			}
@@ -396,4 +404,41 @@ func (e *Engine) checkWriters(prop string) (checked int, violations []string) {
 	}
 	sort.Strings(violations)
 	return
+}
+
+// appendOnlyVarargs: an SSA "varargs" array whose only uses are element stores and one slice passed to builtin append.
+func appendOnlyVarargs(a *ssa.Alloc) bool {
+	if a.Comment != "varargs" || a.Referrers() == nil {
+		return false
+	}
+	for _, r := range *a.Referrers() {
+		switch x := r.(type) {
+		case *ssa.IndexAddr:
+			if x.Referrers() != nil {
+				for _, rr := range *x.Referrers() {
+					if _, ok := rr.(*ssa.Store); !ok {
+						return false
+					}
+				}
+			}
+		case *ssa.Slice:
+			if x.Referrers() == nil {
+				return false
+			}
+			for _, rr := range *x.Referrers() {
+				c, ok := rr.(*ssa.Call)
+				if !ok {
+					return false
+				}
+				b, ok := c.Call.Value.(*ssa.Builtin)
+				if !ok || b.Name() != "append" || len(c.Call.Args) < 2 || c.Call.Args[1] != ssa.Value(x) {
+					return false
+				}
+			}
+		case *ssa.DebugRef:
+		default:
+			return false
+		}
+	}
+	return true
 }
